@@ -238,7 +238,7 @@ func cmdCheck(args []string) int {
 		jobByName[spec.Jobs[i].Name] = &spec.Jobs[i]
 	}
 	replayed := 0
-	reported := map[string]bool{}
+	reported, confirmed, attempts := map[string]bool{}, map[string]bool{}, map[string]int{}
 	invBroken := map[string]bool{}
 	reachOK := map[string]bool{}
 	slowest, slowestWhat := 0.0, ""
@@ -312,10 +312,17 @@ func cmdCheck(args []string) int {
 				}
 				key := r.Job + "|" + q.Kind + "|" + q.Label + "|" + q.Pos
 				if reported[key] {
-					violations++
-					continue
+					// same obligation in another instance: counted only when the first one was confirmed natively
+					if confirmed[key] {
+						violations++
+						continue
+					}
+					if attempts[key] >= 2 {
+						continue
+					}
 				}
 				reported[key] = true
+				attempts[key]++
 				dir := filepath.Join(outDir, "replays", prop, sanitize(r.Job+"-"+paramStr(r.Params)+"-"+q.Label))
 				if violations > 0 && replayed >= 3 {
 					// enough confirmed counterexamples; further sat obligations are counted only
@@ -337,6 +344,7 @@ func cmdCheck(args []string) int {
 				replayed++
 				if rr.Reproduced {
 					violations++
+					confirmed[key] = true
 					fmt.Printf("counterexample %s[%s] %s %q at %s: %s\n", r.Job, paramStr(r.Params), q.Kind, q.Label, q.Pos, rr.Summary)
 					fmt.Printf("VIOLATION property=%s replay=%s\n", prop, filepath.Join(dir, "replay.sh"))
 				} else {
